@@ -131,11 +131,15 @@ PROPS.update({
     "C16": {
         "modules": _DISPATCH_MODS,
         "contracts": [_HR],
+        "groups": [{"modules": ["specs.socket_model", "specs.pystruct", "specs.seqdict", "specs.opaque", "specs.daemon_model", "contracts.registry"],
+                    "contracts": ["Pyro5.server.Daemon.register", "Pyro5.server.Daemon.unregister", "Pyro5.server.Daemon.uriFor#body",
+                                  "Pyro5.server._pyro_obj_to_auto_proxy"]}],
         "harness": "replay/dispatch.py",
         "explanation": "dispatch part: the object a request reaches is the registry entry of the request's object id (weak reference unpacked, class instantiated via "
-                       "_getInstance); 'unknown object' is answered only when that entry is None; every invoked member was resolved on that object.",
-        "assumptions": _COMMON_ASSUME + ["register/unregister/uriFor/proxyFor and the auto-proxy hook are covered by the bounded native harness only (histories incl. falsy, weak, "
-                                         "re-used ids)", "GC timing of weak references"],
+                       "_getInstance); 'unknown object' is answered only when that entry is None; every invoked member was resolved on that object.  Registry operations (own contract group, stated for one arbitrary id = every id): register puts exactly the new id -> this object (a weak reference to it when weak) into the table, leaves every other id alone, sets _pyroId/_pyroDaemon on the object, takes over an id already in use or re-registers a currently registered object only when forced, never registers a class weakly, refuses (DaemonError / TypeError) without touching the table; unregister (by id or by object) removes exactly that id, never the daemon's own, strips the object's id attributes; uriFor hands out a uri for an object only while its id is registered; the auto-proxy hook replaces an object by one proxy made by its daemon exactly when its id currently designates it (or its class) in the registry and otherwise lets it travel by value.",
+        "assumptions": _COMMON_ASSUME + ["registry contracts: the registered object is a plain Python object (setting / deleting its Pyro attributes runs no user code), sequential "
+                                         "semantics, proxyFor and the type-replacement registration with the serializers as declared; whole histories (falsy, weak, re-used "
+                                         "ids, garbage collection) only in the bounded native harness", "GC timing of weak references"],
     },
     "C02": {
         "modules": _DISPATCH_MODS + ["contracts.exposure"],
